@@ -17,6 +17,78 @@ from harness.core import Ctx, Failure, Broken, LeanDriver, Prop, Result
 
 CTX_NAMES = ["P", "PA", "B"]
 SIGS = ["sa", "sa2"]          # one signal name is a proper prefix of the other
+# (object names o1 < o2 in prefix relation and a third, signal names): signal names that share leading characters, a
+# whole prefix, or all their characters with the object names and with the context names (P, PA, B); names equal to
+# another kind's name; names containing each other
+NAME_FAMILIES = [
+    (("pm1", "pm10", "pmr"), ("sa", "sa2")),
+    (("sensor", "sensors", "sens"), ("status", "sensor")),
+    (("adc", "adc2", "ad"), ("data", "adc")),
+    (("laser", "laser_2", "las"), ("error", "relas")),
+    (("a", "aa", "ab"), ("aa", "ba")),
+    (("P", "PA", "B"), ("PA", "P_B")),
+    (("pub1", "pub11", "pub"), ("sig1", "pub1sig")),
+]
+
+
+def _rename(spec: dict, rng: random.Random) -> dict:
+    """gen_spec draws the scenario with the default names; this maps them to one name family (pure data in, pure
+    data out: the replay file holds the renamed scenario)"""
+    ((o1, o2, o3), (s1, s2)) = rng.choice(NAME_FAMILIES)
+    used = {o1, o2, o3}
+    tname = next(x for x in (s1, s2, "tsk") if x not in used)
+    used.add(tname)
+    omap = {("P", "pm1"): o1, ("P", "pm10"): o2, ("P", "tsk"): tname,
+            # the same object name in two contexts, or a name of its own
+            ("PA", "apub"): o1 if rng.random() < 0.5 else "apub", ("B", "bpub"): o2 if rng.random() < 0.5 else "bpub"}
+    smap = {"sa": s1, "sa2": s2}
+
+    def ob(pc, pn):
+        return omap.get((pc, pn), pn)
+
+    def key(k):
+        (pc, pn) = k.split(".")
+        return f"{pc}.{ob(pc, pn)}"
+
+    def op(o):          # [kind?, r, pc, pn, sg, v?] with or without the leading kind
+        o = list(o)
+        i = 1 if isinstance(o[0], str) else 0
+        if o[0] == "pause":
+            return o
+        (o[i + 2], o[i + 3]) = (ob(o[i + 1], o[i + 2]), smap[o[i + 3]])
+        return o
+    sp = dict(spec)
+    sp["pubs"] = [[pc, ob(pc, pn)] for (pc, pn) in spec["pubs"]]
+    sp["kinds"] = {key(k): v for k, v in spec["kinds"].items()}
+    sp["threads"] = [[op(o) for o in ops] for ops in spec["threads"]]
+    sp["presub"] = [op(o) for o in spec["presub"]]
+    sp["bursts"] = {key(k): [smap[x] for x in v] for k, v in spec["bursts"].items()}
+    sp["second"] = {key(k): [smap[x] for x in v] for k, v in spec["second"].items()}
+    if spec["late"]:
+        l = dict(spec["late"])
+        if l["remove"]:
+            l["remove"] = [l["remove"][0], ob(*l["remove"])]
+        l["unsub"] = [op(o) for o in l["unsub"]]
+        l["burst"] = {key(k): [smap[x] for x in v] for k, v in l["burst"].items()}
+        sp["late"] = l
+    if spec["recreate"]:
+        rc = dict(spec["recreate"])
+        rc["old_subs"] = [[r, smap[sg], v] for (r, sg, v) in rc["old_subs"]]
+        rc["subs"] = [[r, smap[sg], v] for (r, sg, v) in rc["subs"]]
+        rc["burst1"] = [smap[x] for x in rc["burst1"]]
+        rc["burst2"] = [smap[x] for x in rc["burst2"]]
+        sp["recreate"] = rc
+    if spec.get("ghost"):
+        g = dict(spec["ghost"])
+        g["name"] = o2 + "0"
+        for f in ("tries", "subs"):
+            g[f] = [[r, smap[sg], v] for (r, sg, v) in g[f]]
+        g["burst"] = [smap[x] for x in g["burst"]]
+        sp["ghost"] = g
+    sp["sigs"] = [s1, s2]
+    sp["task"] = tname
+    sp["rec_name"] = o3
+    return sp
 
 
 # ---------------------------------------------------------------------------
@@ -125,23 +197,32 @@ def gen_spec(rng: random.Random, big: bool) -> dict:
                         "subs": [[r, sg, via()] for r in rr for sg in SIGS if rng.random() < 0.6],
                         "burst1": [rng.choice(SIGS) for _ in range(rng.randint(1, 5))],
                         "burst2": [rng.choice(SIGS) for _ in range(rng.randint(2, 6))]}
-    return {"ctxs": ctxs, "pubs": pubs, "kinds": kinds, "rcvs": rcvs, "links": links, "threads": threads, "presub": presub, "bursts": bursts,
+    spec = {"ctxs": ctxs, "pubs": pubs, "kinds": kinds, "rcvs": rcvs, "links": links, "threads": threads, "presub": presub, "bursts": bursts,
             "second": second, "late": late, "recreate": recreate, "policy": rng.choice(["weighted", "weighted", "pct"])}
+    # fault path, then retry: receivers subscribe to a publisher of P that does not exist yet (every such call must be
+    # refused and must leave nothing behind); the object is then created and publishes; some of the receivers subscribe
+    # again (now accepted), the object publishes again
+    if rng.random() < 0.3:
+        rr = [r for r in range(nrcv) if "P" in reach[rcvs[r]] and not (late and late.get("drop") == [rcvs[r], "P"])]
+        if rr:
+            tries = [[r, sg, via()] for r in rr for sg in SIGS if rng.random() < 0.6]
+            spec["ghost"] = {"name": "pm100", "tries": tries,
+                             "subs": [[r, sg, via()] for (r, sg, _v) in tries if rng.random() < 0.6],
+                             "burst": [rng.choice(SIGS) for _ in range(rng.randint(2, 5))]}
+    return _rename(spec, rng)
 
 
 # ---------------------------------------------------------------------------
 # running one scenario on the real code
 # ---------------------------------------------------------------------------
 
-def _classes():
+def _classes(sigs=None):
+    sigs = list(sigs or SIGS)
     from qmi.core.rpc import QMI_RpcObject, rpc_method
     from qmi.core.pubsub import QMI_Signal
     from qmi.core.task import QMI_Task
 
-    class Pub(QMI_RpcObject):
-        sa = QMI_Signal([int])
-        sa2 = QMI_Signal([int])
-
+    class PubBase(QMI_RpcObject):
         def __init__(self, context, name, slow_release=0):
             super().__init__(context, name)
             self._slow_release = slow_release
@@ -164,26 +245,25 @@ def _classes():
 
     from qmi.core.instrument import QMI_Instrument
 
-    class PubInstr(QMI_Instrument):
-        sa = QMI_Signal([int])
-        sa2 = QMI_Signal([int])
-
+    class PubInstrBase(QMI_Instrument):
         @rpc_method
         def burst(self, items):
             for (sg, uid) in items:
                 getattr(self, sg).publish(uid)
 
-    class PubTask(QMI_Task):
-        sa = QMI_Signal([int])
-
+    class PubTaskBase(QMI_Task):
         def __init__(self, task_runner, name, items):
             super().__init__(task_runner, name)
             self._items = items
 
         def run(self):
             for (sg, uid) in self._items:
-                self.sa.publish(uid)
+                getattr(self, sigs[0]).publish(uid)
 
+    # the signal names come from the scenario (class attributes of those names)
+    Pub = type("Pub", (PubBase,), {sg: QMI_Signal([int]) for sg in sigs})
+    PubInstr = type("PubInstr", (PubInstrBase,), {sg: QMI_Signal([int]) for sg in sigs})
+    PubTask = type("PubTask", (PubTaskBase,), {sigs[0]: QMI_Signal([int])})
     return Pub, PubTask, PubInstr
 
 
@@ -197,7 +277,10 @@ def run_c07(seed, spec: dict, change_points=None, trace_funcs=()):
         from qmi.core.pubsub import QMI_SignalReceiver
         from harness import detsched as D
         random.seed(f"c07:{seed}")
-        Pub, PubTask, PubInstr = _classes()
+        sig_names = spec.get("sigs") or SIGS
+        TSK = spec.get("task", "tsk")
+        PMR = spec.get("rec_name", "pmr")
+        Pub, PubTask, PubInstr = _classes(sig_names)
         tr = PC.Tracer(w)
         box["tr"] = tr
         with tr.installed():
@@ -222,7 +305,7 @@ def run_c07(seed, spec: dict, change_points=None, trace_funcs=()):
             proxies = {}
             tasks = {}
             for (pc, pn) in spec["pubs"]:
-                if pn == "tsk":
+                if pn == TSK and pc == "P":
                     tasks[(pc, pn)] = ctxs[pc].make_task(pn, PubTask, items(spec["bursts"][f"{pc}.{pn}"]))
                 elif (spec.get("kinds") or {}).get(f"{pc}.{pn}") == "inst":
                     proxies[(pc, pn)] = ctxs[pc].make_instrument(pn, PubInstr)
@@ -230,7 +313,7 @@ def run_c07(seed, spec: dict, change_points=None, trace_funcs=()):
                     proxies[(pc, pn)] = ctxs[pc].make_rpc_object(pn, Pub)
             rec = spec.get("recreate")
             if rec:
-                rec_old = ctxs["P"].make_rpc_object("pmr", Pub, rec["yields"])
+                rec_old = ctxs["P"].make_rpc_object(PMR, Pub, rec["yields"])
             rcvs = []
             for cn in spec["rcvs"]:
                 r = QMI_SignalReceiver(max_queue_length=100000)
@@ -268,7 +351,7 @@ def run_c07(seed, spec: dict, change_points=None, trace_funcs=()):
             errors = []
             if rec:
                 for (r, sg, v) in rec["old_subs"]:
-                    call("sub", r, "P", "pmr", sg, v)
+                    call("sub", r, "P", PMR, sg, v)
 
             def subscriber(ops):
                 def fn():
@@ -322,7 +405,7 @@ def run_c07(seed, spec: dict, change_points=None, trace_funcs=()):
                 except D.SchedAbort:
                     raise
                 except BaseException as e:  # noqa  (the task's run() died: a publish call raised)
-                    errors.append(("publish", pc, pn, "sa", type(e).__name__))
+                    errors.append(("publish", pc, pn, sig_names[0], type(e).__name__))
             if rec:
                 from qmi.core.exceptions import QMI_DuplicateNameException
                 old_proxy = rec_old
@@ -334,7 +417,7 @@ def run_c07(seed, spec: dict, change_points=None, trace_funcs=()):
                 def recreator():
                     for _ in range(400):
                         try:
-                            newp["p"] = ctxs["P"].make_rpc_object("pmr", Pub)
+                            newp["p"] = ctxs["P"].make_rpc_object(PMR, Pub)
                             break
                         except QMI_DuplicateNameException:
                             w.sched.yield_point("retry-make")
@@ -346,13 +429,13 @@ def run_c07(seed, spec: dict, change_points=None, trace_funcs=()):
                         if v == 2:
                             if rc not in rproxies_new:
                                 try:
-                                    rproxies_new[rc] = newp["p"] if rc == "P" else ctxs[rc].get_rpc_object_by_name("P.pmr")
+                                    rproxies_new[rc] = newp["p"] if rc == "P" else ctxs[rc].get_rpc_object_by_name("P." + PMR)
                                 except D.SchedAbort:
                                     raise
                                 except BaseException:  # noqa
                                     rproxies_new[rc] = None
-                            rproxies[(rc, "P", "pmr")] = rproxies_new[rc]
-                        call("sub", r, "P", "pmr", sg, v)
+                            rproxies[(rc, "P", PMR)] = rproxies_new[rc]
+                        call("sub", r, "P", PMR, sg, v)
                     newp["p"].rpc_nonblocking.burst(items(rec["burst1"])).wait()
                 tw = w.spawn(remover, "remover")
                 tm = w.spawn(recreator, "recreator")
@@ -367,7 +450,7 @@ def run_c07(seed, spec: dict, change_points=None, trace_funcs=()):
                     except D.SchedAbort:
                         raise
                     except BaseException as e:  # noqa
-                        errors.append(("publish", "P", "pmr", "*", type(e).__name__))
+                        errors.append(("publish", "P", PMR, "*", type(e).__name__))
             late = spec.get("late")
             if late:
                 PC.drain(w)
@@ -388,8 +471,40 @@ def run_c07(seed, spec: dict, change_points=None, trace_funcs=()):
                     raise
                 except BaseException as e:  # noqa
                     errors.append(("late", type(e).__name__))
+            gh = spec.get("ghost")
+            if gh:
+                PC.drain(w)
+                for (r, sg, v) in gh["tries"]:
+                    try:
+                        call("sub", r, "P", gh["name"], sg, 3 if v == 2 else v)     # no proxy of an object that does not exist
+                        errors.append(("refused-subscribe", r, "P", gh["name"], sg, "accepted"))
+                    except D.SchedAbort:
+                        raise
+                    except BaseException as e:  # noqa
+                        if type(e).__name__ != "QMI_SignalSubscriptionException":
+                            errors.append(("refused-subscribe", r, "P", gh["name"], sg, type(e).__name__))
+                try:
+                    gp = ctxs["P"].make_rpc_object(gh["name"], Pub)
+                    gp.rpc_nonblocking.burst(items(gh["burst"])).wait()
+                    PC.drain(w)
+                    for (r, sg, v) in gh["subs"]:
+                        rc = spec["rcvs"][r]
+                        if v == 2 and (rc, "P", gh["name"]) not in rproxies:
+                            try:
+                                rproxies[(rc, "P", gh["name"])] = gp if rc == "P" else ctxs[rc].get_rpc_object_by_name("P." + gh["name"])
+                            except D.SchedAbort:
+                                raise
+                            except BaseException:  # noqa
+                                pass
+                        call("sub", r, "P", gh["name"], sg, v)
+                    gp.rpc_nonblocking.burst(items(gh["burst"])).wait()
+                except D.SchedAbort:
+                    raise
+                except BaseException as e:  # noqa
+                    errors.append(("ghost", type(e).__name__))
             PC.drain(w)
-            tr.note_keys(spec["ctxs"], [p[1] for p in spec["pubs"]] + (["pmr"] if rec else []), SIGS)
+            tr.note_keys(spec["ctxs"], sorted({p[1] for p in spec["pubs"]} | ({PMR} if rec else set()) | ({gh["name"]} if gh else set())),
+                         sig_names)
             for i in range(len(spec["ctxs"])):
                 tr.dump(tr.cid(spec["ctxs"][i]))
             for r in range(len(rcvs)):
@@ -616,7 +731,7 @@ def oracle(spec: dict, out, tr) -> list:
         ob = tr.oid(key[2])
         for i, l in enumerate(tr.lines[:lb]):
             t = l.split(" ")
-            if len(t) == 5 and t[0] == "begin" and t[3] == "rm" and t[4] == str(ob):
+            if len(t) == 5 and t[0] == "begin" and t[1] == str(tr.cid(key[1])) and t[3] == "rm" and t[4] == str(ob):
                 who = f"m u {t[1]} {t[2]} L"
                 if any(x == who for x in tr.lines[i + 1:lb]):
                     sent = True
@@ -633,7 +748,7 @@ def oracle(spec: dict, out, tr) -> list:
     def possibly_subscribed(key, pub_begin, at) -> bool:
         """some subscribe began before the delivery `at`, and no unsubscribe returned before the publication began
         without a subscribe being active between the begin of that unsubscribe and the delivery"""
-        ops = subs.get(key, [])
+        ops = [o for o in subs.get(key, []) if not (o[0] == "sub" and o[3] == "QMI_SignalSubscriptionException")]   # refused = no subscribe
         if not any(kind == "sub" and b < at for (kind, b, e_, exc) in ops):
             return False
         for (kind, b, e_, exc) in ops:
@@ -668,7 +783,8 @@ def oracle(spec: dict, out, tr) -> list:
             last_seq[t] = max(seq, last_seq.get(t, -1))
             key = (r, p["ctx"], p["pub"], p["sig"])
             at = min(dlv_idx.get((r, uid), [END]))
-            if not any(k[0] == r and k[1:] == key[1:] for k in subs):
+            if not any(k[0] == r and k[1:] == key[1:] and any(o[0] == "sub" and o[3] != "QMI_SignalSubscriptionException" for o in v_)
+                       for k, v_ in subs.items()):
                 bad.append(("not-subscribed", f"receiver {r} ({rctx[r]}) got {p['ctx']}.{p['pub']}.{p['sig']} without ever subscribing to it"))
             elif not possibly_subscribed(key, p["begin"], at):
                 bad.append(("delivered-after-unsubscribe", f"receiver {r} ({rctx[r]}) got publication {uid} of {p['ctx']}.{p['pub']}.{p['sig']} "
